@@ -18,12 +18,12 @@ const interval = 100000 // only used to aim heights at checkpoint boundaries
 // ---------------------------------------------------------------- state chains
 
 type chain struct {
-	o                  *kit.Out
-	lbh, ih            int64
-	vals, nvals        *types.ValidatorSet
-	lhvc, lhpc         int64
-	params             abci.ConsensusParams
-	saved              []int64 // heights for which a validator entry was written
+	o           *kit.Out
+	lbh, ih     int64
+	vals, nvals *types.ValidatorSet
+	lhvc, lhpc  int64
+	params      abci.ConsensusParams
+	saved       []int64 // heights for which a validator entry was written
 }
 
 func mkVals(pows map[int]int64) []*types.Validator {
@@ -301,8 +301,8 @@ func boundary(o *kit.Out) {
 	o.Op("pload 1")
 	o.Op("vinfo 1")
 	o.Op("pinfo 1")
-	o.Op("ssave 4 1 0:1:0;0 0:1:0;0 7 1.1.1.1.1/- 3")  // LastHeightValidatorsChanged 7 > 6
-	o.Op("pload 5")                                     // params written before the panic; refers to height 3
+	o.Op("ssave 4 1 0:1:0;0 0:1:0;0 7 1.1.1.1.1/- 3") // LastHeightValidatorsChanged 7 > 6
+	o.Op("pload 5")                                   // params written before the panic; refers to height 3
 	o.Op("pinfo 5")
 	o.Op("sload")
 	o.Op("ssave 4 9 0:1:0;0 0:1:0;0 5 1.1.1.1.1/- 5") // 1 < nextHeight < InitialHeight
@@ -666,7 +666,7 @@ func malformed(o *kit.Out, r *kit.Rand, n int) {
 
 func generate(o *kit.Out, r *kit.Rand, tier string) {
 	boundary(o)
-	nb, nc, nr := 400, 500, 300
+	nb, nc, nr := 300, 400, 250
 	if tier == "thorough" {
 		nb, nc, nr = 3000, 3500, 2500
 	}
